@@ -129,6 +129,9 @@ def run(tier, replay=None):
             open(pp, "w").write(o)
             n += run_generator(v, variant, kr, ["run", pp], os.path.join(out, "k_%s_%s.ndjson" % (pf, variant)),
                                "kernel programs " + pf, start='{"e":"Prog"')
+    # data arrays (cmb_dataset, cmb_timeseries) and summaries: capacity-discipline model, allocator-observed traces, sanitizers
+    import checks.c10_arrays as c10_arrays
+    n += c10_arrays.arrays_part(v, tier, out)
     v.cov["distinct_nontrivial"] = n
     v.cov["rule"] = ("every generated history/program is run on the release-flag build and on the ASan/UBSan build; a case is one "
                      "history (all generated histories are distinct by seed and index; counted: histories that started)")
